@@ -287,3 +287,116 @@ def gen_scenario(rnd, n_events=None, fault_p=0.08):
                 ev.append(["own", c, n])
                 owned[n] = c
     return {"limit": limit, "events": ev}
+
+
+# ---------------------------------------------------------------------------
+# directed families (each aims at one case split of the model / one known finding)
+# ---------------------------------------------------------------------------
+SPEC_EXAMPLE_QUOTED = "arg0=''\\''',arg1='\\',arg2=',',arg3='\\\\'"
+SPEC_EXAMPLE_BARE = "arg0=\\',arg1=\\,arg2=',',arg3=\\\\"
+
+
+def probe_signals(rnd, c, n=4):
+    return [["send", c, 4, rnd.choice(PATHS + ["/ab/c", "/a/bc", "/org"]), rnd.choice(IFACES), rnd.choice(MEMBERS), None, gen_args(rnd)] for _ in range(n)]
+
+
+def gen_directed(rnd):
+    fam = rnd.choice(("pns", "dups", "limit", "peer", "eaves", "fault", "pools", "quoting"))
+    ev = [["hello", 1], ["hello", 2], ["hello", 3]]
+    limit = 512
+    if fam == "pns":
+        # several rules that differ only in the path_namespace value, then removal by a third value:
+        # which one goes is only visible through later deliveries
+        extra = rnd.choice(("", ",type='signal'", ",interface='a.b'", ",member='M'"))
+        vals = rnd.sample(PATHS + ["/ab/c", "/org"], rnd.choice((2, 3)))
+        for v in vals:
+            ev.append(["add", 1, "path_namespace='%s'%s" % (v, extra)])
+        ev.append(["rm", 1, "path_namespace='%s'%s" % (rnd.choice(PATHS + ["/zz"]), extra)])
+        for p in PATHS + ["/ab/c", "/a/bc", "/org/x"]:
+            ev.append(["send", 2, 4, p, "a.b", "M", None, []])
+        ev.append(["rm", 1, "path_namespace='%s'%s" % (rnd.choice(vals), extra)])
+        ev += probe_signals(rnd, 3, 3)
+    elif fam == "dups":
+        items = gen_items(rnd, fault_ok=False, eaves_ok=False)
+        n = rnd.choice((2, 3))
+        for _ in range(n):
+            ev.append(["add", 1, render(rnd, items)])
+        ev.append(["add", 2, render(rnd, items)])
+        d = dict(items)
+        probe = [["send", 3, 4, d.get("path", d.get("path_namespace", "/a")), d.get("interface", "a.b"), d.get("member", "M"), None, gen_args(rnd)]]
+        for _ in range(n + 1):
+            ev += probe + probe_signals(rnd, 3, 1)
+            its = list(items)
+            rnd.shuffle(its)
+            ev.append(["rm", 1, render(rnd, its)])
+        ev += probe
+    elif fam == "limit":
+        limit = rnd.choice((1, 2, 3))
+        for i in range(limit + 2):
+            ev.append(["add", 1, rnd.choice(("type='signal'", "member='M'", "bogus", "arg0='%d'" % i, gen_rule_text(rnd, False)))])
+        ev.append(["rm", 1, "type='signal'"])
+        ev.append(["add", 1, "interface='a.b'"])
+        ev.append(["add", 1, "interface='a.bc'"])
+        ev.append(["add", 2, "type='signal'"])
+        ev += probe_signals(rnd, 3, 3)
+    elif fam == "peer":
+        # rules naming a peer's unique name; the peer leaves with or without rules of its own
+        key = rnd.choice(("sender", "destination"))
+        t1 = "%s='{U2}'" % key + rnd.choice(("", ",type='signal'", ",eavesdrop='true'"))
+        ev.append(["add", 1, t1])
+        ev.append(["add", 3, "%s='{U2}',member='M'" % key])
+        if rnd.random() < 0.6:
+            ev.append(["add", 2, rnd.choice(("type='error'", "sender='{U1}'", "member='Mm'"))])
+        if rnd.random() < 0.3:
+            ev.append(["rm", 2, "type='error'"])
+        ev.append(["send", 2, 4, "/a", "a.b", "M", None, []])
+        ev.append(["disc", 2])
+        ev.append(["rm", 1, t1])
+        ev.append(["rm", 3, "%s='{U2}',member='M'" % key])
+        ev.append(["add", 1, t1])
+        ev.append(["rm", 1, t1])
+    elif fam == "eaves":
+        ev.append(["own", 2, "w.a"])
+        for _ in range(rnd.choice((2, 3, 4))):
+            items = [("eavesdrop", "true")] + [x for x in gen_items(rnd, False, False) if x[0] not in ("eavesdrop",)]
+            if rnd.random() < 0.5:
+                items = [x for x in items if x[0] != "destination"]
+                items.append(("destination", rnd.choice(("{U2}", "w.a", "{U3}", "w.none", "org.freedesktop.DBus"))))
+            ev.append(["add", rnd.choice((1, 3)), render(rnd, items)])
+        ev.append(["add", 1, "type='method_call'"])
+        for _ in range(6):
+            ev.append(["send", rnd.choice((1, 2, 3))] + gen_msg(rnd, ["{U1}", "{U2}", "{U3}", "w.a", "w.none"]))
+        ev.append(["send", 3, 5, "/a", "a.b", "M", "w.a", []])
+    elif fam == "fault":
+        n = rnd.choice((0, 0, 1, 2))
+        pre = rnd.choice(("", "type='signal',", "member='M',", "type='error',", "interface='a.b',", "path='/a',"))
+        ev.append(["add", 1, "%sarg%dpath=''" % (pre, n)])
+        ev.append(["add", 2, "arg%dpath='/a/'" % n])
+        for a in ([["s", ""]], [["x"]], [], [["s", "x"]], [["o", "/a"]]):
+            args = [["x"]] * n + a
+            ev.append(["send", 3, 4, "/a", "a.b", "M", None, args])
+    elif fam == "pools":
+        # one rule in each of the four (type, interface) pools, on two connections, and messages for every pool
+        for c in (1, 2):
+            for t in (None, "signal", "method_call"):
+                for i in (None, "a.b"):
+                    if rnd.random() < 0.6:
+                        rest = [x for x in gen_items(rnd, False, c == 2) if x[0] not in ("type", "interface")][:1]
+                        items = ([("type", t)] if t else []) + ([("interface", i)] if i else []) + rest
+                        ev.append(["add", c, render(rnd, items)])
+        for _ in range(6):
+            ev.append(["send", 3] + gen_msg(rnd, ["{U1}", "{U2}"]))
+    else:
+        # quoting forms of one and the same value, added and removed through different spellings
+        v = rnd.choice(ARG_STR)
+        forms = [quote(rnd, v) for _ in range(3)]
+        ev.append(["add", 1, "arg0=" + forms[0]])
+        ev.append(["send", 2, 4, "/a", "a.b", "M", None, [["s", v]]])
+        ev.append(["send", 2, 4, "/a", "a.b", "M", None, [["s", v + "x"]]])
+        ev.append(["rm", 1, "arg0=" + forms[1]])
+        ev.append(["send", 2, 4, "/a", "a.b", "M", None, [["s", v]]])
+        ev.append(["add", 1, SPEC_EXAMPLE_BARE])
+        ev.append(["add", 3, SPEC_EXAMPLE_QUOTED])
+        ev.append(["send", 2, 4, "/a", "a.b", "M", None, [["s", "'"], ["s", "\\"], ["s", ","], ["s", "\\\\"]]])
+        ev.append(["send", 2, 4, "/a", "a.b", "M", None, [["s", "'"], ["s", "\\,arg2=,"], ["x"], ["s", "\\\\"]]])
+    return {"limit": limit, "events": ev}
